@@ -88,50 +88,58 @@ def rule_pair_compiler(crate):
 
 def rule_dedup(crate):
     """R19: Resolver::inlining_pass imports a module only if it is not yet in imported_modules, and records it
-    before recursing (so re-imports and cycles change nothing)."""
+    before recursing (so re-imports and cycles change nothing).  Decided on the MIR: the block that calls
+    ModuleImporter::import executes only on the `false` outcome of a membership test over imported_modules
+    (whatever the source idiom: `if !any {..}`, `if any { continue }`, a named bool, let-else …), and a push to
+    imported_modules dominates the recursive call."""
+    from mirlib import Mir, guarded_blocks
+
     out = RuleOut("DEDUP", "module import is guarded by the membership test and recorded before recursion")
     fn = crate.find_fn("resolver::Resolver::inlining_pass")
     f = crate.file_of(fn)
-    arms = find_arm(crate, fn, "crate::ast::Statement", "ModuleImport")
-    if len(arms) != 1:
-        out.error("anchor missing: ModuleImport arm of Resolver::inlining_pass")
+    m = Mir(crate, crate.find_mir("resolver::Resolver::inlining_pass"))
+    tests, imports, pushes, recs = [], [], [], []
+    for i, blk in enumerate(m.blocks):
+        t = blk["term"]
+        if t.get("k") != "call":
+            continue
+        name = t["f"].get("inst") or t["f"].get("fn") or ""
+        short = name.split("::")[-1]
+        if short in ("any", "contains", "contains_key") and t.get("args"):
+            tr = m.trace(t["args"][0])
+            if "imported_modules" in tr["fields"]:
+                tests.append((i, t))
+        elif name.endswith("ModuleImporter::import"):
+            imports.append((i, t))
+        elif short in ("push", "insert") and t.get("args") and "imported_modules" in m.trace(t["args"][0])["fields"]:
+            pushes.append((i, t))
+        elif name.endswith("Resolver::inlining_pass"):
+            recs.append((i, t))
+    if not imports or not recs:
+        out.error("anchor missing: inlining_pass has %d ModuleImporter::import call(s) and %d recursive call(s)" % (len(imports), len(recs)))
         return out
-    body = arms[0]["body"]
-    # guard: if !self.imported_modules.iter().any(..)
-    guard = None
-    for n in walk(body):
-        if n.get("k") == "If":
-            c = peel(n["cond"])
-            neg = c.get("k") == "Unary" and c.get("op") == "Not"
-            inner = peel(c["e"]) if neg else c
-            reads = [x for x in walk(inner) if x.get("k") == "Field" and x["name"] == "imported_modules"]
-            tests = [x for x in walk(inner) if x.get("k") == "MethodCall" and x["name"] in ("any", "contains")]
-            if reads and tests and neg:
-                guard = n
-    if guard is None:
+    if not tests:
         out.violation("inlining_pass:guard", f, fn["line"], "the import is not guarded by a negative membership test on imported_modules: a module imported twice (or cyclically) is inlined again")
         return out
-    out.ok("inlining_pass:guard", *crate.loc(fn, guard), detail="import happens only under `!imported_modules.iter().any(..)`")
-    then = guard["then"]
-    imp = [x for x in walk(then) if x.get("k") == "MethodCall" and x["name"] == "import"]
-    push = [x for x in walk(then) if x.get("k") == "MethodCall" and x["name"] == "push" and (place_path(x["recv"]) or (0, 0, []))[2][-1:] == ["imported_modules"]]
-    rec = [x for x in walk(then) if x.get("k") == "MethodCall" and (callee(x) or "").endswith("Resolver::inlining_pass")]
-    outside = [x for x in walk(body) if x.get("k") == "MethodCall" and x["name"] == "import" and not any(y is x for y in walk(then))]
-    if outside:
-        out.violation("inlining_pass:import-inside-guard", *crate.loc(fn, outside[0]), detail="ModuleImporter::import is called outside the membership guard")
-    if not imp or not rec:
-        out.error("inlining_pass: import / recursive call not found inside the guard")
-        return out
-    pos = lambda x: (x["s"][0], x["s"][1])
-    if push and pos(imp[0]) < pos(push[0]) < pos(rec[0]):
-        # the push must be unconditional w.r.t. the successful import (same block as the recursion)
-        cond = []
-        unconditional_calls(then, lambda c: c is push[0], cond, False)
-        out.ok("inlining_pass:record-before-recursion", *crate.loc(fn, push[0]), detail="imported_modules.push lies between the successful import() and the recursive inlining_pass (cycles terminate)")
-    else:
-        out.violation("inlining_pass:record-before-recursion", *crate.loc(fn, rec[0]), detail="the module is not recorded in imported_modules before the recursive inlining_pass: cyclic imports recurse forever and repeated imports inline the module twice")
-    # comparison key: the pushed path and the tested path are the same module path
-    out.analysed = {"import_calls": len(imp), "recursions": len(rec)}
+    safe = set()
+    for (ti, t) in tests:
+        if "p" in t["dest"]:
+            continue
+        blocks, _sw = guarded_blocks(m, t["dest"]["l"], want_true=False)
+        safe |= blocks
+    for (bi, t) in imports:
+        if bi in safe:
+            out.ok("inlining_pass:guard", f, t["s"][0], "ModuleImporter::import executes only on the `not yet imported` outcome of the membership test over imported_modules (line %d)" % tests[0][1]["s"][0])
+        else:
+            out.violation("inlining_pass:guard", f, t["s"][0], "the import is not guarded by a negative membership test on imported_modules: a module imported twice (or cyclically) is inlined again")
+    for (ri, t) in recs:
+        doms = [p for (p, _t) in pushes if m.dominates(p, ri)]
+        imp_doms = [p for (p, _t) in imports if m.dominates(p, ri)]
+        if doms and imp_doms and any(m.dominates(ip, pp) for ip in imp_doms for pp in doms):
+            out.ok("inlining_pass:record-before-recursion", f, t["s"][0], "imported_modules.push lies between the successful import() and the recursive inlining_pass on every path (cycles terminate)")
+        else:
+            out.violation("inlining_pass:record-before-recursion", f, t["s"][0], "the module is not recorded in imported_modules before the recursive inlining_pass: cyclic imports recurse forever and repeated imports inline the module twice")
+    out.analysed = {"import_calls": len(imports), "recursions": len(recs), "membership_tests": len(tests), "record_sites": len(pushes)}
     return out
 
 
